@@ -54,8 +54,8 @@ def check_states(run, states):
 
 # ----------------------------------------------------------------------------- the setters of ada::url (Model/UrlSetters.lean)
 MODELLED_SETTERS = ("set_username", "set_password", "set_port", "set_hash", "set_search", "set_pathname", "set_protocol", "set_host",
-                    "set_hostname")
-BOOL_SETTERS = ("set_username", "set_password", "set_port", "set_pathname", "set_protocol", "set_host", "set_hostname")
+                    "set_hostname", "set_href")
+BOOL_SETTERS = ("set_username", "set_password", "set_port", "set_pathname", "set_protocol", "set_host", "set_hostname", "set_href")
 
 
 def fields_line(f):
